@@ -46,7 +46,8 @@ Class(line, bad) ==
            /\ "conforming_body_accepted" \in bad /\ "reason" \in DOMAIN line /\ line.reason = "rewriting failed"
    THEN "form_body_default_rewriting_failed"
    ELSE IF c.family = "form" /\ bad = {"violating_body_rejected"} /\ line.verdict = "ok"
-           /\ \E i \in DOMAIN c.v.k : (c.v.k[i] \in {"n", "u1"} /\ c.v.v[i].t = "str")
+           /\ \E i \in DOMAIN c.v.k : (c.v.k[i] \in {"n", "u1", "b", "f"} /\ c.v.v[i].t = "str")
+                                      \/ (c.v.k[i] = "n" /\ c.v.v[i].t = "num" /\ c.v.v[i].q % 4 # 0)          \* 4.5 for the integer
                                       \/ (c.v.k[i] = "l" /\ \E j \in DOMAIN c.v.v[i].a : c.v.v[i].a[j].t = "str")
                                       \/ (c.v.k[i] = "o" /\ HasKeyK(c.v.v[i], "a") /\ Get(c.v.v[i], "a").t = "str")
    THEN "form_unparsable_field_dropped"
